@@ -96,6 +96,12 @@ pub enum RtoCall {
 #[derive(Clone, Debug)]
 pub enum ProbeEvent {
     ConnCreated(ConnKey),
+    /// Follows ConnCreated: the connection id this connection receives on (its key in the
+    /// socket's stream table is (remote, conn_id_recv)).
+    ConnRecvId {
+        key: ConnKey,
+        conn_id_recv: u16,
+    },
     ConnPoll(Box<ConnSnapshot>),
     ConnDropped(ConnKey),
     Socket(SocketSnapshot),
